@@ -121,6 +121,24 @@ def run(rep):
                     continue
                 seen.add(v[1])
                 if v[1] == "AhoCorasick":
+                    # the arm is nothing but the scan over the automaton's hits (T-OFFSET owns the loop): no shortcut before or after it
+                    ab = q.inline_pure_lets(a["body"], [p_["pat"] for p_ in sf.thir["params"] if p_.get("pat")] + [a["pat"]])
+                    def flat(n_):
+                        n_ = unblock(n_)
+                        if n_.get("k") == "Block":
+                            its = [s_["e"] if s_["k"] == "Expr" else s_ for s_ in n_["stmts"]] + ([n_["expr"]] if n_.get("expr") is not None else [])
+                            its = [unblock(x) if x.get("k") != "Let" else x for x in its]
+                            if len(its) == 1 and its[0].get("k") != "Let":
+                                return flat(its[0])
+                            return its
+                        if n_.get("k") == "Return" and n_.get("value") is not None and unblock(n_["value"]).get("k") == "Block":
+                            return flat(n_["value"])  # `return helper(..)` with the helper's body inlined
+                        return [n_]
+                    items = flat(ab)
+                    if len(items) == 2 and isinstance(items[1], dict) and (q.returns_sr(items[1], "False") or q.is_sr(items[1], "False")):
+                        items = items[:1]  # `no hit => False` spelled in the arm itself
+                    okarm = len(items) == 1 and items[0].get("k") == "For" and call_is(peel(items[0]["iter"]), "find_overlapping_iter")
+                    rep.check(okarm, "T-SEARCH", "T-SEARCH/AhoCorasick", a["sp"], "the automaton arm is only the scan over its overlapping hits (no shortcut that answers without scanning)", "; ".join(str(show(x))[:50] if isinstance(x, dict) and x.get("k") != "Let" else "let" for x in items))
                     continue
                 p0 = strip_ref(subpat(a["pat"], 0)) if v[1] != "Any" else None
                 ren = {p0["name"]: "i"} if p0 and p0.get("k") == "Bind" else {}
